@@ -77,8 +77,8 @@ Theorem C15_request_unchanged_shorter : forall st m st' m' C,
 Proof. exact shorter_request_unchanged. Qed.
 Print Assumptions C15_request_unchanged_shorter.
 
-Theorem C15_request_unchanged_forward_refs : forall ln ic m m' a b C,
-  fr_method ln ic m = Some (m', a, b) -> request_of C m' = request_of C m.
+Theorem C15_request_unchanged_forward_refs : forall ic m m' a b C,
+  fr_method ic m = Some (m', a, b) -> request_of C m' = request_of C m.
 Proof. exact forward_refs_request_unchanged. Qed.
 Print Assumptions C15_request_unchanged_forward_refs.
 
@@ -164,7 +164,7 @@ Definition consts (p : option package) : list (string * string) :=
 (* all four (+ identity) together: the hypotheses of the theorems above are met by a real run of the pipeline,
    the request is the unplugged one, the value is the projection, the import is deferred to the right module *)
 Example C15_all_plugins_example :
-  let p := generate [S0; E0; PIdentity; PForward false; PNoReimports] mini in
+  let p := generate [S0; E0; PIdentity; PForward; PNoReimports] mini in
   option_map (request_of (consts p)) (first_method p) = Some (request_of [] mini_method) /\
   option_map result_expr (first_method p) = Some (Some (RAttr (RValidate "GetMe") "me")) /\
   option_map m_returns (first_method p) = Some (Some (ASub "Optional" [AConst "GetMeMe"])) /\
@@ -176,7 +176,7 @@ Proof. vm_compute. repeat split. Qed.
 
 (* the hypotheses of C15_request_unchanged are met by that run *)
 Example C15_request_unchanged_hypotheses :
-  let ps := [S0; E0; PIdentity; PForward false; PNoReimports] in
+  let ps := [S0; E0; PIdentity; PForward; PNoReimports] in
   List.length (estates ps) = 1 /\ init_ok ps /\
   Forall (fun o => std_body (uo_method o) = true) (u_ops mini) /\
   NoDup (map const_name (map uo_name (u_ops mini))) /\
@@ -194,7 +194,7 @@ Qed.
    GetMe` — one dot — and TYPE_CHECKING is imported from the absolute module `typing` (level 0), both in the
    method body and in the TYPE_CHECKING block *)
 Example C15_forward_refs_regression_F24 :
-  let p := generate [PForward false] mini in
+  let p := generate [PForward] mini in
   option_map (fun m => hd_error (m_body m)) (first_method p) = Some (Some (SImport 1 "get_me" "GetMe")) /\
   src_of 1 "get_me" = ".get_me" /\
   option_map (fun pk => existsb (fun i => Nat.eqb (i_level i) 0 && String.eqb (i_module i) "typing"
@@ -209,8 +209,8 @@ Proof. vm_compute. repeat split. Qed.
 (* order matters (documented model behaviour, not a defect): after ClientForwardRefs the return annotation is a
    string constant, so a ShorterResults placed later leaves every method alone *)
 Example C15_order_dependence :
-  option_map result_expr (first_method (generate [PForward false; S0] mini)) = Some (Some (RValidate "GetMe")) /\
-  option_map result_expr (first_method (generate [S0; PForward false] mini)) = Some (Some (RAttr (RValidate "GetMe") "me")).
+  option_map result_expr (first_method (generate [PForward; S0] mini)) = Some (Some (RValidate "GetMe")) /\
+  option_map result_expr (first_method (generate [S0; PForward] mini)) = Some (Some (RAttr (RValidate "GetMe") "me")).
 Proof. vm_compute. split; reflexivity. Qed.
 
 (* ShorterResults counts a field selected both directly and through a fragment twice: the result object has ONE
@@ -229,16 +229,17 @@ Proof.
   vm_compute. split; reflexivity.
 Qed.
 
-(* finding C15-forward-refs-custom-operations (open): with enable_custom_operations the client has
-   `return self.get_data(response)`; the plugin looks `self` up among the package imports and raises KeyError —
-   generation fails for EVERY input.  The lenient variant (fixes/C15-forward-refs-custom-operations.diff) skips it. *)
+(* regression example for finding C15-forward-refs-custom-operations (fixed by /repo 91a5368): with
+   enable_custom_operations the client has `return self.get_data(response)`; the plugin used to look `self` up among
+   the package imports and raise KeyError (generation failed for every input); it now leaves the method alone *)
 Definition custom_ops_client : cmodule :=
   {| cm_imports := cm_imports (u_client mini); cm_tc := []; cm_class := "Client"; cm_bases := ["AsyncBaseClient"];
      cm_methods := [{| m_name := "execute_custom_operation"; m_async := true; m_params := []; m_tail := "**kwargs: Any";
                        m_returns := Some (ASub "Dict" [AName "str"; AName "Any"]);
                        m_body := [SOther "response = await self.execute(...)";
                                   SReturn (RCallOn "self" "self.get_data(response)")] |}] |}.
-Theorem C15_forward_refs_custom_operations_refuted :
-  fr_client false custom_ops_client = None /\
-  option_map cm_methods (fr_client true custom_ops_client) = Some (cm_methods custom_ops_client).
+Example C15_forward_refs_regression_custom_operations :
+  option_map cm_methods (fr_client custom_ops_client) = Some (cm_methods custom_ops_client) /\
+  option_map (fun c => map (fun i => src_of (i_level i) (i_module i)) (cm_imports c)) (fr_client custom_ops_client)
+    = Some ["typing"; ".async_base_client"; ".input_types"; ".get_me"].
 Proof. vm_compute. split; reflexivity. Qed.
